@@ -34,6 +34,9 @@ type c13Ext struct {
 	notLatestSince map[string]uint64
 	// last successful buy message and its context, for the C12/C10 ledgers
 	LastBuy *c13BuyInfo
+	// MaxGapH: slow blocks are 1..MaxGapH hours apart (per-run knob; smaller gaps = more blocks per
+	// month, i.e. a month spans several fixation stale periods)
+	MaxGapH int
 }
 
 type c13BuyInfo struct {
@@ -59,7 +62,7 @@ func c13Reset() {
 
 func c13ext(s *Sim) *c13Ext {
 	if c13Cur == nil || c13Cur.s != s {
-		c13Cur = &c13Ext{s: s, notLatestSince: map[string]uint64{}}
+		c13Cur = &c13Ext{s: s, notLatestSince: map[string]uint64{}, MaxGapH: 6}
 	}
 	return c13Cur
 }
@@ -220,7 +223,7 @@ func (s *Sim) opC13PlanAdd() {
 
 func (s *Sim) opC13PlanModify() {
 	r := s.R
-	idx := s.pickPlan()
+	idx := s.c13PickGovPlan()
 	p, ok := s.c13LatestPlan(idx)
 	if !ok {
 		r.Op("c13_plan_mod", "skip")
@@ -296,7 +299,7 @@ func (s *Sim) opC13PlanDel() {
 			live++
 		}
 	}
-	idx := s.pickPlan()
+	idx := s.c13PickGovPlan()
 	if live <= 1 {
 		r.Op("c13_plan_del", "skip")
 		r.Logf("gov plan del %s: skipped (last live plan)", idx)
@@ -553,15 +556,45 @@ func (s *Sim) opC13AutoRenew() {
 	r.Logf("autorenew consumer=%s by=%s enable=%v plan=%q: %s", c.Acc.Name, creator.Name, msg.Enable, msg.Index, short(res.Err))
 }
 
+// c13SlowBlocks advances block time by about d with blocks 1..MaxGapH hours apart.
+func (s *Sim) c13SlowBlocks(d time.Duration) {
+	maxGap := c13ext(s).MaxGapH
+	end := s.Now().Add(d)
+	for guard := 0; s.Now().Before(end) && guard < 4000; guard++ {
+		s.NextBlock(time.Duration(1+s.R.Draw("ops", maxGap)) * time.Hour)
+	}
+}
+
+// c13PickGovPlan: governance acts on a random plan, or (half of the time) on a plan that a live
+// subscription uses or will auto-renew onto.
+func (s *Sim) c13PickGovPlan() string {
+	r := s.R
+	if r.Chance("ops", 1, 2) {
+		var cand []string
+		for _, c := range s.Consumers {
+			if sb := s.c13Newest(c.Acc.Addr); sb != nil {
+				cand = append(cand, sb.PlanIndex)
+				if sb.AutoRenewalNextPlan != subscriptiontypes.AUTO_RENEWAL_PLAN_NONE {
+					cand = append(cand, sb.AutoRenewalNextPlan)
+				}
+			}
+		}
+		if len(cand) > 0 {
+			return cand[r.Draw("ops", len(cand))]
+		}
+	}
+	return s.pickPlan()
+}
+
 // opC13Months lets the chain run slowly (blocks 1..6 h apart) for 3..35 days.
 func (s *Sim) opC13Months() {
 	r := s.R
 	days := 3 + r.Draw("ops", 33)
 	h0 := s.Height()
-	s.SlowBlocks(time.Duration(days) * 24 * time.Hour)
+	s.c13SlowBlocks(time.Duration(days) * 24 * time.Hour)
 	r.Fault("slow_chain_weeks")
 	r.Op("c13_months", "ok")
-	r.Logf("slow chain %dd: +%d blocks -> h=%d t=%s", days, s.Height()-h0, s.Height(), s.Now().Format(time.RFC3339))
+	r.Logf("slow chain %dd: +%d blocks -> h=%d t=%s %s", days, s.Height()-h0, s.Height(), s.Now().Format(time.RFC3339), s.c13StateLine())
 }
 
 // opC13ToExpiry runs slow blocks until just after the earliest pending month expiry of any
@@ -576,12 +609,12 @@ func (s *Sim) opC13ToExpiry() {
 	}
 	h0 := s.Height()
 	if first == 0 {
-		s.SlowBlocks(24 * time.Hour)
+		s.c13SlowBlocks(24 * time.Hour)
 	} else {
 		end := time.Unix(int64(first), 0)
 		for guard := 0; s.Now().Before(end) && guard < 1500; guard++ {
 			left := end.Sub(s.Now())
-			gap := time.Duration(1+r.Draw("ops", 6)) * time.Hour
+			gap := time.Duration(1+r.Draw("ops", c13ext(s).MaxGapH)) * time.Hour
 			if left < gap && r.Chance("ops", 1, 2) {
 				gap = left // land exactly on the expiry second
 				if gap <= 0 {
@@ -593,7 +626,19 @@ func (s *Sim) opC13ToExpiry() {
 	}
 	r.Fault("slow_chain_weeks")
 	r.Op("c13_to_expiry", "ok")
-	r.Logf("slow chain to next month expiry: +%d blocks -> h=%d t=%s", s.Height()-h0, s.Height(), s.Now().Format(time.RFC3339))
+	r.Logf("slow chain to next month expiry: +%d blocks -> h=%d t=%s %s", s.Height()-h0, s.Height(), s.Now().Format(time.RFC3339), s.c13StateLine())
+}
+
+// c13StateLine summarises balances and subscriptions (logged so that a divergence between two
+// executions of the same tape shows up in the trace hash).
+func (s *Sim) c13StateLine() string {
+	out := fmt.Sprintf("| subscription-module=%s supply=%s subs:", s.ModuleBalance(subscriptiontypes.ModuleName), s.Supply())
+	for _, c := range s.Consumers {
+		if sb := s.c13Newest(c.Acc.Addr); sb != nil {
+			out += fmt.Sprintf(" %s=%s@%d/left%d/credit%s/cu%d", c.Acc.Name, sb.PlanIndex, sb.PlanBlock, sb.DurationLeft, sb.Credit.Amount, sb.MonthCuLeft)
+		}
+	}
+	return out
 }
 
 // c13Weights is the workload shared by C10..C13: the base mix with the blind subscription
@@ -659,16 +704,44 @@ func c13IsPlanMissing(err error) bool {
 	return false
 }
 
+// c13Check is r.Check that also tells the caller whether to go on (a muted known finding returns).
+func c13Check(r *simrt.Run, ok bool, class, sig, format string, a ...interface{}) bool {
+	r.Check(ok, class, sig, format, a...)
+	return ok
+}
+
+// c13AbortIfMuted is r.Check that ends the run quietly when the violation is muted by a
+// known-finding entry: the state is then outside what the remaining oracles can judge (every
+// later failure would be a consequence of the same defect).
+func c13AbortIfMuted(r *simrt.Run, ok bool, class, sig, format string, a ...interface{}) {
+	if !c13Check(r, ok, class, sig, format, a...) {
+		r.Abort()
+	}
+}
+
 type c13Mon struct {
 	s    *Sim
 	prev map[string]subscriptiontypes.Subscription // consumer -> subscription seen after the previous block
 	done map[string]uint64                         // consumer -> month expiry already handled
+	// probesOnly: used by C10/C11 runs to count the interesting situations (renewal failed, advance
+	// purchase activated, ...) without evaluating the C13 oracles
+	probesOnly bool
 }
 
 // checkRefs: every live subscription (current entry and the entry pending for the next epoch) and
 // its advance purchase reference a plan version that FindPlan still returns.
 func (m *c13Mon) checkRefs(where string) {
 	s, r := m.s, m.s.R
+	if m.probesOnly {
+		seen := map[string]subscriptiontypes.Subscription{}
+		for _, consumer := range s.K.Subscription.GetAllSubscriptionsIndices(s.Ctx) {
+			if cur := s.c13Current(consumer); cur != nil {
+				seen[consumer] = *cur
+			}
+		}
+		m.prev = seen
+		return
+	}
 	x := c13ext(s)
 	stale := s.K.Epochstorage.BlocksToSaveRaw(s.Ctx)
 	idxs := s.K.Subscription.GetAllSubscriptionsIndices(s.Ctx)
@@ -684,7 +757,7 @@ func (m *c13Mon) checkRefs(where string) {
 		}
 		for _, sb := range views {
 			_, ok := s.K.Plans.FindPlan(s.Ctx, sb.PlanIndex, sb.PlanBlock)
-			r.Check(ok, "plan-version-unavailable", "subscription", "%s: FindPlan(%s, %d) fails for the live subscription of %s at height %d (stale period %d blocks; version stopped being latest at height %d): %s",
+			c13AbortIfMuted(r, ok, "plan-version-unavailable", "subscription", "%s: FindPlan(%s, %d) fails for the live subscription of %s at height %d (stale period %d blocks; version stopped being latest at height %d): %s",
 				where, sb.PlanIndex, sb.PlanBlock, s.NameOf(consumer), s.Height(), stale, x.notLatestSince[c13PlanKey(sb.PlanIndex, sb.PlanBlock)], c13SubStr(sb))
 			if since, gone := x.notLatestSince[c13PlanKey(sb.PlanIndex, sb.PlanBlock)]; gone && since <= s.Height() {
 				r.Probe("c13_ref_nonlatest")
@@ -694,7 +767,7 @@ func (m *c13Mon) checkRefs(where string) {
 			}
 			if f := sb.FutureSubscription; f != nil {
 				_, ok := s.K.Plans.FindPlan(s.Ctx, f.PlanIndex, f.PlanBlock)
-				r.Check(ok, "plan-version-unavailable", "future-subscription", "%s: FindPlan(%s, %d) fails for the advance purchase of %s at height %d: %s",
+				c13AbortIfMuted(r, ok, "plan-version-unavailable", "future-subscription", "%s: FindPlan(%s, %d) fails for the advance purchase of %s at height %d: %s",
 					where, f.PlanIndex, f.PlanBlock, s.NameOf(consumer), s.Height(), c13SubStr(sb))
 				if since, gone := x.notLatestSince[c13PlanKey(f.PlanIndex, f.PlanBlock)]; gone && since+stale < s.Height() {
 					r.Probe("c13_future_ref_nonlatest_past_stale_period")
@@ -727,7 +800,7 @@ func (m *c13Mon) afterBlock() {
 		if p.DurationLeft == 1 && p.FutureSubscription != nil {
 			// the paid advance purchase must take over: its plan version was referenced
 			ok := cur != nil && cur.PlanIndex == p.FutureSubscription.PlanIndex && cur.PlanBlock == p.FutureSubscription.PlanBlock
-			r.Check(ok, "advance-purchase-lost", "expiry", "subscription of %s expired at height %d with a paid advance purchase %s@%d x%d but afterwards it is: %s",
+			r.Check(ok || m.probesOnly, "advance-purchase-lost", "expiry", "subscription of %s expired at height %d with a paid advance purchase %s@%d x%d but afterwards it is: %s",
 				s.NameOf(consumer), s.Height(), p.FutureSubscription.PlanIndex, p.FutureSubscription.PlanBlock, p.FutureSubscription.DurationBought, c13SubStr(cur))
 			r.Probe("c13_advance_activated")
 		}
@@ -739,6 +812,11 @@ func (m *c13Mon) afterBlock() {
 				}
 			} else {
 				r.Probe("c13_renew_failed")
+				if a, known := s.ByAddr[p.Creator]; known {
+					if plan, ok := s.c13LatestPlan(p.AutoRenewalNextPlan); ok && s.Balance(a.Account.Addr).LT(plan.Price.Amount) {
+						r.Probe("c13_renew_failed_no_funds")
+					}
+				}
 			}
 		}
 		if p.DurationLeft == 1 && p.FutureSubscription == nil && p.AutoRenewalNextPlan == subscriptiontypes.AUTO_RENEWAL_PLAN_NONE {
@@ -749,6 +827,12 @@ func (m *c13Mon) afterBlock() {
 
 func (m *c13Mon) afterTx(tx *TxResult) {
 	r := m.s.R
+	if m.probesOnly {
+		if tx.Err == nil {
+			m.checkRefs("tx")
+		}
+		return
+	}
 	r.Check(!c13IsPlanMissing(tx.Err), "plan-missing-error", tx.Name, "transaction %s failed because a referenced plan version is gone: %v", tx.Name, tx.Err)
 	if tx.Err == nil {
 		m.checkRefs("tx:" + tx.Name)
@@ -771,11 +855,22 @@ func (m *c13Mon) checkPairing() {
 	}
 }
 
+// c13AttachProbes counts subscription life-cycle situations in runs of other properties.
+func (s *Sim) c13AttachProbes() {
+	m := &c13Mon{s: s, prev: map[string]subscriptiontypes.Subscription{}, done: map[string]uint64{}, probesOnly: true}
+	s.AfterTx = append(s.AfterTx, func(w *World, tx *TxResult) { m.afterTx(tx) })
+	s.AfterBlock = append(s.AfterBlock, func(w *World) { m.afterBlock() })
+}
+
 func runC13(r *simrt.Run) {
 	c13Reset()
-	cfg := mkCfg(r, c13Weights(), 70, 400)
+	w := c13Weights()
+	w["c13_plan_mod"], w["c13_plan_del"], w["c13_autorenew"], w["c13_poor_buy"] = 8, 3, 6, 4
+	w["relay"], w["stake"] = 10, 4
+	cfg := mkCfg(r, w, 70, 300)
 	cfg.NPlans = 2 + r.Draw("cfg", 2)
 	s := NewSim(r, cfg)
+	c13ext(s).MaxGapH = []int{2, 3, 6}[r.Draw("cfg", 3)]
 	s.c13AddPoor(1 + r.Draw("cfg", 2))
 	s.HaltOnBlockPanic = true
 	m := &c13Mon{s: s, prev: map[string]subscriptiontypes.Subscription{}, done: map[string]uint64{}}
